@@ -186,3 +186,61 @@ Example C15_ex_rotate :
   build_bytes (CProcessRotl (XConst (VInt 12)) (XConst (VInt 3)) CGreedyBytes) (VBytes [x45; x61; x23]) [] = Ok (VBytes [x45; x61; x23], [x12; x34; x56]).
 Proof. split; vm_compute; reflexivity. Qed.
 ''')
+
+
+PROPS['C10'] = dict(
+    title='C10 - bit-level fields are packed MSB-first across byte boundaries on both code paths',
+    requires_gen=['Names'],
+    theorems=[
+        ('BitFacts', 'bits_fold_app', 'The value of a concatenation of bit strings is shift-and-add: MSB-first packing.'),
+        ('BitFacts', 'bits_fold_bits_of_N', 'width bits of n denote n.'),
+        ('BitFacts', 'bits_fold_bytes2bits', 'The bit string of a byte string denotes its big-endian integer.'),
+        ('BitFacts', 'bits2bytes_bytes2bits', 'bits2bytes inverts bytes2bits on every byte string.'),
+        ('BitFacts', 'bits2integer_bytes2bits', 'The (signed) integer read from the bits of n bytes is the integer read from the bytes: two\'s complement sign bit = top bit of the first byte.'),
+        ('BitFacts', 'bits_fold_fields', 'For ANY list of fields (width, pattern): the concatenated patterns denote the packed big integer.'),
+        ('BitFacts', 'pack_fields_bytes', 'C10 build direction: for any sequence of widths summing to a multiple of 8, the packed bytes are the big-endian digits of that integer.'),
+        ('BitFacts', 'unpack_fields_bits', 'C10 parse direction: the bit string of those bytes is the concatenation of the field patterns.'),
+        ('BitLaws', 'law_bytesinteger_bitwise_parse', 'Interpreter level, every width n: Bitwise(BitsInteger(8n, signed)) parses as BytesInteger(n, signed).'),
+        ('BitLaws', 'law_bytesinteger_bitwise_short', '... and both reject short input with StreamError.'),
+    ],
+    examples='''
+Example C10_ex_pack :
+  build_bytes (CTransformed (CStruct [CRenamed [x61] (CBitsInt (XConst (VInt 3)) false false); CRenamed [x62] (CBitsInt (XConst (VInt 13)) true false)])
+                 BFbytes2bits (Some 2%Z) BFbits2bytes (Some 2%Z))
+              (VDict [([x61], VInt 5); ([x62], VInt (-2))]) [] = Ok (VDict [([x61], VInt 5); ([x62], VInt (-2))], [xbf; xfe]).
+Proof. vm_compute; reflexivity. Qed.
+Example C10_ex_bitwise_is_sized_region :
+  i_Bitwise_BitsInteger_1_u_ns = bitwise_sized (CBitsInt (kint 8) false false) 1 /\\
+  i_Bitwise_BitsInteger_1_s_ns = bitwise_sized (CBitsInt (kint 8) true false) 1 /\\
+  i_Bitwise_BitsInteger_2_u_ns = bitwise_sized (CBitsInt (kint 16) false false) 2 /\\
+  i_Bitwise_BitsInteger_2_s_ns = bitwise_sized (CBitsInt (kint 16) true false) 2 /\\
+  i_Bitwise_BitsInteger_3_u_ns = bitwise_sized (CBitsInt (kint 24) false false) 3 /\\
+  i_Bitwise_BitsInteger_3_s_ns = bitwise_sized (CBitsInt (kint 24) true false) 3 /\\
+  i_Bitwise_BitsInteger_4_u_ns = bitwise_sized (CBitsInt (kint 32) false false) 4 /\\
+  i_Bitwise_BitsInteger_4_s_ns = bitwise_sized (CBitsInt (kint 32) true false) 4 /\\
+  i_Bitwise_BitsInteger_5_u_ns = bitwise_sized (CBitsInt (kint 40) false false) 5 /\\
+  i_Bitwise_BitsInteger_5_s_ns = bitwise_sized (CBitsInt (kint 40) true false) 5 /\\
+  i_Bitwise_BitsInteger_6_u_ns = bitwise_sized (CBitsInt (kint 48) false false) 6 /\\
+  i_Bitwise_BitsInteger_6_s_ns = bitwise_sized (CBitsInt (kint 48) true false) 6 /\\
+  i_Bitwise_BitsInteger_7_u_ns = bitwise_sized (CBitsInt (kint 56) false false) 7 /\\
+  i_Bitwise_BitsInteger_7_s_ns = bitwise_sized (CBitsInt (kint 56) true false) 7 /\\
+  i_Bitwise_BitsInteger_8_u_ns = bitwise_sized (CBitsInt (kint 64) false false) 8 /\\
+  i_Bitwise_BitsInteger_8_s_ns = bitwise_sized (CBitsInt (kint 64) true false) 8 /\\
+  i_Bitwise_BitsInteger_9_u_ns = bitwise_sized (CBitsInt (kint 72) false false) 9 /\\
+  i_Bitwise_BitsInteger_9_s_ns = bitwise_sized (CBitsInt (kint 72) true false) 9 /\\
+  i_Bitwise_BitsInteger_10_u_ns = bitwise_sized (CBitsInt (kint 80) false false) 10 /\\
+  i_Bitwise_BitsInteger_10_s_ns = bitwise_sized (CBitsInt (kint 80) true false) 10 /\\
+  i_Bitwise_BitsInteger_11_u_ns = bitwise_sized (CBitsInt (kint 88) false false) 11 /\\
+  i_Bitwise_BitsInteger_11_s_ns = bitwise_sized (CBitsInt (kint 88) true false) 11 /\\
+  i_Bitwise_BitsInteger_12_u_ns = bitwise_sized (CBitsInt (kint 96) false false) 12 /\\
+  i_Bitwise_BitsInteger_12_s_ns = bitwise_sized (CBitsInt (kint 96) true false) 12 /\\
+  i_Bitwise_BitsInteger_13_u_ns = bitwise_sized (CBitsInt (kint 104) false false) 13 /\\
+  i_Bitwise_BitsInteger_13_s_ns = bitwise_sized (CBitsInt (kint 104) true false) 13 /\\
+  i_Bitwise_BitsInteger_14_u_ns = bitwise_sized (CBitsInt (kint 112) false false) 14 /\\
+  i_Bitwise_BitsInteger_14_s_ns = bitwise_sized (CBitsInt (kint 112) true false) 14 /\\
+  i_Bitwise_BitsInteger_15_u_ns = bitwise_sized (CBitsInt (kint 120) false false) 15 /\\
+  i_Bitwise_BitsInteger_15_s_ns = bitwise_sized (CBitsInt (kint 120) true false) 15 /\\
+  i_Bitwise_BitsInteger_16_u_ns = bitwise_sized (CBitsInt (kint 128) false false) 16 /\\
+  i_Bitwise_BitsInteger_16_s_ns = bitwise_sized (CBitsInt (kint 128) true false) 16.
+Proof. repeat split; reflexivity. Qed.
+''')
